@@ -43,10 +43,10 @@ def shape_class(shape, bcast):
 @st.composite
 def case(draw, tier="quick"):
     d = draw(st.sampled_from([2, 3]))
-    op = draw(st.sampled_from(COLL_OPS[d]))
     shape = draw(st.sampled_from(SHAPES + ([[64]] if tier == "thorough" else [])))
     npos = C.prod(shape)
     vs = [draw(Z.params()) for _ in range(min(npos, 6))]
+    op = C.uniform_pick(COLL_OPS[d], vs)
     nargs = len(op.args)
     bcast = [draw(st.integers(0, 3)) == 0 for _ in range(nargs)]
     if all(bcast):
